@@ -563,6 +563,37 @@ class Prog_sources:
     def __init__(self, sources): self.sources, self.generated = list(sources), {}
 
 
+def case_aborted_writer(rng):
+    """C20/C06/C19: a task writes a generated resource and is then aborted (a task it requires panics); the cause is removed;
+    later builds reach the aborted writer again — directly, through a task that newly requires it, top-down or bottom-up,
+    with or without a reader of the resource in between.  Its own leftovers must not make it abort."""
+    G = rng.choice([10, 110]); S, X, T = 1, rng.choice([2, 102]), 3
+    W, P, R, Q = 2, 4, 1, 3
+    wk = rng.choice(["write", "write", "wrote"])
+    pre = rng.choice(["", f"read {S} 0 "])
+    nv = 1 if pre else 0
+    lines = [f"task {W} {pre}{wk} {G} 0 some " + (f"+ v 0 k 1" if pre else "k 5") + f" req {P} {rng.choice([0, 4])} ret " + (f"v {nv}" if rng.random() < 0.5 else "k 1"),
+             f"task {P} read {X} 0 if = v 0 k 1 panic ret v 0",
+             f"task {R} read {T} 0 if = v 0 k 1 req {W} {rng.choice([0, 4])} ret + v 1 k 10 ret k 0"]
+    if rng.random() < 0.5:
+        lines.append(f"task {Q} req {W} 0 read {G} 0 ret + v 0 v 1")      # a legitimate reader of G
+    n = Q if len(lines) == 4 else P
+    hist = [f"set {S} {rng.randint(0, 3)}", f"set {X} 0", f"set {T} 0"]
+    if rng.random() < 0.6: hist += ["session", f"req {R}"] + ([f"req {W}"] if rng.random() < 0.5 else []) + ["endsession", "cleannodes"]
+    hist += [f"set {X} 1"] + ([f"set {S} {rng.randint(4, 6)}"] if rng.random() < 0.5 else [])
+    hist += ["session"] + ([f"bu {X}"] if rng.random() < 0.3 else []) + [f"req {W}", "endsession", "cleannodes"]       # W writes, then is aborted
+    hist += [f"set {X} 0", f"set {T} 1"]
+    if rng.random() < 0.4: hist += [f"set {S} {rng.randint(0, 6)}"]
+    for _ in range(rng.randint(1, 3)):
+        hist.append("session")
+        if rng.random() < 0.6: hist.append(f"bu {X} {T}" + (f" {S}" if rng.random() < 0.5 else ""))
+        roots = rng.sample([R, W] + ([Q] if n == Q else []), rng.randint(1, 2))
+        hist += [f"req {t}" for t in roots] + ["endsession", "cleannodes"]
+        if rng.random() < 0.5: hist.append(f"set {T} {rng.randint(0, 1)}")
+        if rng.random() < 0.3: hist.append(f"set {S} {rng.randint(0, 6)}")
+    return sorted(lines, key=lambda l: int(l.split()[1])) + hist, dict(uses_wrote=(wk == "wrote"), injected=f"panic in task {P} guard ({X}, 1)")
+
+
 def case_panic(rng):
     """C19: a panic at any operation of any task, or a diagnosed violation, followed by further sessions after the
     cause has or has not been removed."""
